@@ -14,7 +14,7 @@ from __future__ import annotations
 import itertools
 
 from symx import core, facade, stubs
-from symx.core import AND, IMPLIES, ITE, NOT, OR, smax
+from symx.core import AND, IMPLIES, ITE, NOT, OR, is_sym, smax
 
 PHASES = {"A": 0.0, "B": 1.0}
 
@@ -156,11 +156,23 @@ def fall_end(cs, idx, eom_flag):
     return cs.slots[idx].tf + fall_of(cs, idx, eom_flag)
 
 
+def ref_is_detuned_delay(pulse):
+    """Reference (not the implementation's): a delay with a constant detuning is a Pulse whose amplitude is a
+    ConstantWaveform of value 0 and whose detuning is a ConstantWaveform."""
+    from pulser.pulse import Pulse
+    from pulser.waveforms import ConstantWaveform
+
+    if not isinstance(pulse, Pulse) or type(pulse.amplitude) is not ConstantWaveform or type(pulse.detuning) is not ConstantWaveform:
+        return False
+    v = facade._unwrap0(pulse.amplitude._value)
+    return (v == 0.0) if not is_sym(v) else bool(v == 0.0)
+
+
 def last_pulse_idx(cs, before=None, skip_ddelay=False):
     n = len(cs.slots) if before is None else before
     for i in range(n - 1, -1, -1):
         if is_pulse(cs.slots[i]):
-            if skip_ddelay and cs.is_detuned_delay(cs.slots[i].type):
+            if skip_ddelay and ref_is_detuned_delay(cs.slots[i].type):
                 continue
             return i
     return None
@@ -250,7 +262,7 @@ def only_delays_appended(sched, snap, allow_block_close=False):
         old_slots, old_blocks = snap[name]
         if len(cs.slots) < len(old_slots) or not all(a is b for a, b in zip(cs.slots, old_slots)):
             return False
-        if any(not (s.type == "delay" or (is_pulse(s) and bool(cs.is_detuned_delay(s.type)))) for s in cs.slots[len(old_slots):]):
+        if any(not (s.type == "delay" or (is_pulse(s) and ref_is_detuned_delay(s.type))) for s in cs.slots[len(old_slots):]):
             return False
         if len(cs.eom_blocks) != len(old_blocks):
             return False
@@ -381,7 +393,7 @@ def step_harness(shape):
             obs += pulse_obligations(inp, sched, shape, old, new_slots, new_pulse, barriers, t0)
         elif op[0] == "add_delay":
             obs.append(("c02:delay_one_slot", len(new_slots) == 1 and (
-                new_slots[0].type == "delay" or (is_pulse(new_slots[0]) and bool(own.is_detuned_delay(new_slots[0].type))))))
+                new_slots[0].type == "delay" or (is_pulse(new_slots[0]) and ref_is_detuned_delay(new_slots[0].type)))))
             if len(new_slots) == 1:
                 d = new_slots[0].tf - new_slots[0].ti
                 obs.append(("c01:delay_rounding", AND(d >= dur, d < dur + clock, dur >= ch.min_duration)))
@@ -398,7 +410,7 @@ def step_harness(shape):
             if det_off == 0:
                 obs.append(("c15:eom_delay_plain", sl.type == "delay"))
             else:
-                obs.append(("c15:eom_delay_detuned", is_pulse(sl) and bool(own.is_detuned_delay(sl.type))
+                obs.append(("c15:eom_delay_detuned", is_pulse(sl) and ref_is_detuned_delay(sl.type)
                             and float(sl.type.detuning[0]) == det_off))
         return obs
 
@@ -477,7 +489,7 @@ def pulse_obligations(inp, sched, shape, old, new_slots, new_pulse, barriers, t0
     if len(new_slots) == 2:
         d0 = new_slots[0]
         if _chan_in_eom(ocfg) and ocfg.get("det_off", 0.0) != 0:
-            obs.append(("c02:pulse_delay_first", is_pulse(d0) and bool(own.is_detuned_delay(d0.type))))
+            obs.append(("c02:pulse_delay_first", is_pulse(d0) and ref_is_detuned_delay(d0.type)))
         else:
             obs.append(("c02:pulse_delay_first", d0.type == "delay"))
     bmax = smax([0] + list(barriers))
@@ -522,7 +534,7 @@ def expected_start(sched, shape, old, barriers, t0, obs=None, s=None):
     if proto != "no-delay":
         lp = None
         for i in range(len(old_own) - 1, -1, -1):
-            if is_pulse(old_own[i]) and not own.is_detuned_delay(old_own[i].type):
+            if is_pulse(old_own[i]) and not ref_is_detuned_delay(old_own[i].type):
                 lp = i
                 break
         if lp is not None and float(old_own[lp].type.phase) != PHASES[ph]:
@@ -618,7 +630,7 @@ def eom_obligations(inp, sched, shape, old, snap, new_slots, t0):
                 if det_off == 0:
                     obs.append(("c15:buffer_plain_delay", b.type == "delay"))
                 else:
-                    obs.append(("c15:buffer_detuned", is_pulse(b) and bool(own.is_detuned_delay(b.type))
+                    obs.append(("c15:buffer_detuned", is_pulse(b) and ref_is_detuned_delay(b.type)
                                 and float(b.type.detuning[0]) == det_off))
                 if op[0] == "enable_eom" and lp is not None:
                     # the buffer starts only after the previous pulse's fall
@@ -679,6 +691,13 @@ def step_shapes(tier):
                             own=dict(clock=clock, local=local, slots=slots, mod=True, pj=pj,
                                      targets_a=["q0"], targets_b=["q1"]),
                             op=op, maxseq=True, nbarriers=1))
+    # a channel without modulation bandwidth can still have a (custom) phase-jump time
+    for clock in ((4,) if quick else (1, 4)):
+        for local in (False, True):
+            for slots in own_slot_lists(2, local):
+                for op in ops_global[:6]:
+                    shapes.append(dict(own=dict(clock=clock, local=local, slots=slots, mod=False, pj="custom",
+                                                targets_a=["q0"], targets_b=["q1"]), op=op, maxseq=False, nbarriers=1))
     if not quick:
         # deeper variants: symbolic channel max_duration (automatic delays can then be refused), two phase barriers,
         # channels without modulation
